@@ -13,10 +13,9 @@ LEVEL_TEXT = (
     "per-photon numeric clauses (unit vectors, orthogonality, cone angle, segment membership, "
     "energy range) are NOT decided.")
 EXPLANATION = LEVEL_TEXT
-NOT_DECIDED = ("every per-photon numeric relation: unit direction, polarisation orthogonality, "
-               "Cerenkov cone angle, position on the segment, energy inside the table range")
+NOT_DECIDED = ('the per-photon numeric relations other than unit length by construction: polarisation orthogonality and the Cerenkov cone as values, position on the segment, energy inside the table range, time')
 
-TECHNIQUE = ('CFG guard dominance / must-pass on the photon-request path (threshold edge returns literal zero, clamp on other returns, guarded request fields)')
+TECHNIQUE = ('CFG guard dominance / must-pass on the photon-request path (threshold edge returns literal zero, clamp on other returns, guarded request fields); unit-vector typestate: provenance of every direction / polarisation write and rotate() argument traced to make_unit_vector / from_spherical / rotate')
 
 UNITS = [
     "src/celeritas/optical/detail/CerenkovOffloadAction.cc",
